@@ -206,9 +206,42 @@ def is_uint8(st, v):
 
 
 def _keep_u8(e, ne):
-    if getattr(e, "dtype", None) == U8:
-        ne.dtype = U8
+    """a slice / row / view of an array has the array's dtype: a forced dtype mark (uint8, object, ...) is inherited"""
+    if "dtype" in e.__dict__:
+        ne.dtype = e.dtype
     return ne
+
+
+def mark_layout(st, e, inputs):
+    """e = result of an elementwise operation / order-'K' conversion of `inputs`: numpy gives it the memory order of its
+    array operands, so it is C-contiguous for sure only when every operand of 2 or more axes is; otherwise its layout
+    is marked unknown (ravel / reshape of it are then refused instead of guessed)"""
+    if len(e.shape) < 2 or len(e.data) <= 1:
+        return e
+    for v in inputs:
+        if isinstance(v, Ref) and st.get(v).kind == "nd":
+            ie = st.get(v)
+            if len(ie.shape) >= 2 and ie.c_contiguous() is not True:
+                e.layout_unknown = True
+    return e
+
+
+def view_possible(e, shape):
+    """can numpy reshape the array e to `shape` WITHOUT copying?  True / False / None (layout unknown).  numpy makes a view
+    exactly when the elements, taken in logical order, sit at memory offsets that are an affine function of the new
+    multi-index (checked against numpy on 28 000 random views x shapes); otherwise reshape returns a COPY."""
+    if len(e.data) <= 1:
+        return True
+    if e.__dict__.get("layout_unknown"):
+        return None
+    vo = e.__dict__.get("viewof")
+    offs = list(vo[1]) if vo is not None else list(range(len(e.data)))
+    steps = [size(shape[k + 1 :]) for k in range(len(shape))]
+    strides = [(offs[steps[k]] - offs[0]) if n > 1 else 0 for k, n in enumerate(shape)]
+    for j, idx in enumerate(itertools.product(*[range(n) for n in shape])):
+        if offs[0] + sum(i * s for i, s in zip(idx, strides)) != offs[j]:
+            return False
+    return True
 
 
 def tofloat(x):
@@ -239,47 +272,130 @@ def scalar_op(I, st, op, a, b):
     raise Unsupported("array elementwise op forks")
 
 
+class BroadcastError(Exception):
+    """shapes that numpy cannot broadcast together (numpy raises ValueError)"""
+
+
 def broadcast(sa, da, sb, db):
-    """-> shape, list of (x, y) pairs.  Supports equal shapes, scalars, and trailing-dimension broadcasting."""
+    """-> shape, list of (x, y) pairs.  numpy's general rule: the shapes are aligned at their LAST axis (the shorter one is
+    padded with 1 on the left); two aligned axes are compatible when they are equal or one of them is 1 (that operand is
+    repeated along the axis); anything else cannot be broadcast (BroadcastError -> numpy's ValueError)."""
     if sa == sb:
         return sa, list(zip(da, db))
-    if sa == ():
-        return sb, [(da[0], y) for y in db]
-    if sb == ():
-        return sa, [(x, db[0]) for x in da]
-    if len(sa) > len(sb) and sa[len(sa) - len(sb) :] == sb:
-        reps = size(sa) // size(sb)
-        return sa, list(zip(da, db * reps))
-    if len(sb) > len(sa) and sb[len(sb) - len(sa) :] == sa:
-        reps = size(sb) // size(sa)
-        return sb, list(zip(da * reps, db))
-    if len(sa) == len(sb) and all(x == y or x == 1 or y == 1 for x, y in zip(sa, sb)):
-        out = tuple(max(x, y) for x, y in zip(sa, sb))
-        pairs = []
-        for idx in itertools.product(*[range(n) for n in out]):
-            ia = sum((i if n > 1 else 0) * size(sa[k + 1 :]) for k, (i, n) in enumerate(zip(idx, sa)))
-            ib = sum((i if n > 1 else 0) * size(sb[k + 1 :]) for k, (i, n) in enumerate(zip(idx, sb)))
-            pairs.append((da[ia], db[ib]))
-        return out, pairs
-    raise Unsupported("broadcast of shapes %s and %s" % (sa, sb))
+    n = max(len(sa), len(sb))
+    pa = (1,) * (n - len(sa)) + tuple(sa)
+    pb = (1,) * (n - len(sb)) + tuple(sb)
+    out = []
+    for x, y in zip(pa, pb):
+        if x != y and x != 1 and y != 1:
+            raise BroadcastError("operands could not be broadcast together with shapes %s %s" % (sa, sb))
+        out.append(y if x == 1 else x)
+    out = tuple(out)
+    pairs = []
+    for idx in itertools.product(*[range(k) for k in out]):
+        ia = sum((i if m > 1 else 0) * size(pa[k + 1 :]) for k, (i, m) in enumerate(zip(idx, pa)))
+        ib = sum((i if m > 1 else 0) * size(pb[k + 1 :]) for k, (i, m) in enumerate(zip(idx, pb)))
+        pairs.append((da[ia], db[ib]))
+    return out, pairs
+
+
+INT64_MIN, INT64_MAX = -(2 ** 63), 2 ** 63 - 1
+
+
+def operand_kind(I, st, v, data):
+    """element kind of an operand of an array operation: the array's dtype; for a Python scalar / sequence the dtype
+    np.asarray would give it (bool, int64, float64, ...)"""
+    if isinstance(v, Ref) and st.get(v).kind == "nd":
+        return dtype_of(st.get(v))
+    return dtype_of(NdE((len(data),), data))
+
+
+def check_int64(I, data):
+    """int64 arrays hold machine integers: a CONCRETE value outside the range is refused (numpy wraps around, raises
+    OverflowError or falls back to the object dtype depending on the operation); symbolic ones are mathematical integers
+    under a logged assumption"""
+    for x in data:
+        if isinstance(x, int) and not isinstance(x, bool) and not INT64_MIN <= x <= INT64_MAX:
+            raise Unsupported("integer %d outside the int64 range in an integer array (wrap-around is not modelled)" % x)
+        if is_z3(x) and z3.is_int(x) and not z3.is_int_value(x):
+            I.trust("numpy-int64", "A5: symbolic elements of integer arrays are mathematical integers (no wrap-around at 2**63)")
 
 
 def nd_binop(I, st, op, a, b):
+    """elementwise arithmetic with numpy's result dtype for the modelled kinds bool < int64 < float64:
+    `/` always gives float64; otherwise the larger kind of the operands (Python scalars take part with their own kind:
+    int array + 1.5 is float64); bool with bool: + is `or`, * is `and`, & | ^ are logical, - raises TypeError"""
     I.trust("numpy", "A5: numpy mini-model (fixed shapes, elementwise real arithmetic, dot, indexing)")
     if is_uint8(st, a) or is_uint8(st, b):
         raise Unsupported("arithmetic on a uint8 array (wrap-around is not modelled)")
+    for v in (a, b):
+        if isinstance(v, Ref) and st.get(v).kind == "nd" and getattr(st.get(v), "flatiter", False):
+            raise Unsupported("arithmetic on ndarray.flat (numpy.flatiter has no arithmetic)")
     sa, da = asnd(I, st, a)
     sb, db = asnd(I, st, b)
     if op == "MatMult":
+        if sa == () or sb == ():
+            # unlike np.dot, the @ operator does not accept scalars / 0-d arrays
+            yield st, exc("ValueError", "matmul: Input operand does not have enough dimensions")
+            return
         yield st, dot(I, st, a, b)
         return
     try:
         shape, pairs = broadcast(sa, da, sb, db)
-    except Unsupported:
-        yield st, exc("ValueError", "operands could not be broadcast together")
+    except BroadcastError as err:
+        yield st, exc("ValueError", str(err))
         return
+    if any(is_nan(x) for x in da) or any(is_nan(x) for x in db):
+        raise Unsupported("array arithmetic on nan")
+    ka, kb = operand_kind(I, st, a, da), operand_kind(I, st, b, db)
+    if ka in ("U", "S") or kb in ("U", "S"):
+        raise Unsupported("arithmetic on string arrays")
+    if "O" in (ka, kb):
+        rk = "O"  # object arrays: the elements' own Python operators
+    elif op == "Div":
+        rk = "f"
+    elif "f" in (ka, kb):
+        rk = "f"
+    elif "i" in (ka, kb):
+        rk = "i"
+    else:
+        rk = "b"
+    if rk == "b":
+        M = _M()
+        if op in ("Add", "BitOr"):
+            data = [M.disj([x, y]) for x, y in pairs]
+        elif op in ("Mult", "BitAnd"):
+            data = [M.conj([x, y]) for x, y in pairs]
+        elif op == "Sub":
+            yield st, exc("TypeError", "numpy boolean subtract, the `-` operator, is not supported, use the bitwise_xor, the `^` operator, or the logical_xor function instead.")
+            return
+        else:
+            raise Unsupported("operator %s between boolean arrays" % op)
+        r = NdE(shape, data)
+        r.dtype = "b"
+        yield st, st.alloc(mark_layout(st, r, (a, b)))
+        return
+    if rk == "i" and op == "Pow":
+        # numpy: integer arrays to a negative integer power raise ValueError (Python's int ** -n would give a float)
+        if any(is_z3(y) for _, y in pairs):
+            raise Unsupported("integer array to a symbolic power")
+        if any(as_arith(y) < 0 for _, y in pairs):
+            yield st, exc("ValueError", "Integers to negative integer powers are not allowed.")
+            return
     data = [scalar_op(I, st, op, x, y) for x, y in pairs]
-    yield st, st.alloc(NdE(shape, data))
+    if rk == "f":
+        data = [tofloat(x) if is_number(x) else x for x in data]
+        if not all(is_reallike(x) for x in data):
+            raise Unsupported("array arithmetic: a float64 result with a non-real element")
+    elif rk == "i":
+        data = [as_arith(x) for x in data]
+        if not all(is_intlike(x) for x in data):
+            raise Unsupported("array arithmetic: an int64 result with a non-integer element")
+        check_int64(I, data)
+    r = NdE(shape, data)
+    if rk in ("f", "i", "O") and (rk == "O" or not data):
+        r.dtype = rk
+    yield st, st.alloc(mark_layout(st, r, (a, b)))
 
 
 def nd_compare(I, st, op, a, b):
@@ -300,29 +416,35 @@ def nd_compare(I, st, op, a, b):
     sb, db = asnd(I, st, b)
     try:
         shape, pairs = broadcast(sa, da, sb, db)
-    except Unsupported:
-        yield st, False if op == "Eq" else True
+    except BroadcastError as err:
+        # numpy >= 1.25: a comparison of arrays whose shapes cannot be broadcast raises ValueError (== and != included;
+        # older versions returned the scalar False / True for them)
+        yield st, exc("ValueError", str(err))
         return
     out = []
     for x, y in pairs:
-        if op == "Eq":
+        if is_nan(x) or is_nan(y):
+            out.append(op == "NotEq")  # every comparison with NaN is False (also nan == nan), != is True
+        elif op == "Eq":
             out.append(M.eq_values(I, st, x, y))
         elif op == "NotEq":
             out.append(M.znot(M.eq_values(I, st, x, y)))
         else:
             out.append(ops.num_compare(op, x, y))
-    yield st, st.alloc(NdE(shape, out))
+    yield st, st.alloc(mark_layout(st, NdE(shape, out), (a, b)))
 
 
 def nd_map(I, st, ref, fn):
     e = st.get(ref)
-    return st.alloc(NdE(e.shape, [fn(x) for x in e.data]))
+    return st.alloc(mark_layout(st, NdE(e.shape, [fn(x) for x in e.data]), (ref,)))
 
 
 def nd_rows(I, st, ref):
     e = st.get(ref)
     if not e.shape:
         raise Unsupported("iteration over 0-d array")
+    if getattr(e, "cursor", 0):
+        raise Unsupported("iteration over an ndarray.flat that next() has already advanced")
     if len(e.shape) == 1:
         return list(e.data)
     step = size(e.shape[1:])
@@ -343,6 +465,14 @@ def _index_list(I, st, idx, n):
         return list(range(n))[M.slice_concrete(I, n, idx)]
     if isinstance(idx, (tuple,)) or (isinstance(idx, Ref) and st.get(idx).kind in ("list", "nd")):
         items = I.iterate(idx, st)
+        if any(is_boollike(x) for x in items):
+            # a sequence of booleans is a MASK (not the integers 0 / 1): the positions where it is True; its length must
+            # be the length of the axis (IndexError otherwise)
+            if not all(isinstance(x, bool) for x in items):
+                raise Unsupported("boolean mask index with symbolic / mixed entries")
+            if len(items) != n:
+                raise IndexError
+            return [k for k, x in enumerate(items) if x]
         out = []
         for x in items:
             if not isinstance(x, int):
@@ -361,6 +491,14 @@ def resolve_index(I, st, shape, idx):
         # numpy: arr[(tuple_of_ints,)] is fancy indexing on axis 0
     else:
         comps = [idx]
+    if any(c is Ellipsis for c in comps):
+        # `...` stands for as many full slices as are needed to index every axis (at most one is allowed)
+        if sum(1 for c in comps if c is Ellipsis) > 1:
+            raise IndexError
+        k = [c is Ellipsis for c in comps].index(True)
+        if len(comps) - 1 > len(shape):
+            raise IndexError
+        comps = comps[:k] + [SliceVal(None, None, None)] * (len(shape) - (len(comps) - 1)) + comps[k + 1 :]
     if len(comps) > len(shape):
         raise IndexError
     sel = []
@@ -406,16 +544,26 @@ def nd_getitem(I, st, ref, idx):
         yield st, exc("IndexError", "index out of bounds")
         return
     if shape == ():
+        if dtype_of(e) in ("i", "b"):
+            I.trust("numpy-scalar-types", "A5: an element read from an int64 / bool array is used as a Python int / bool (CPython gives np.int64 / "
+                    "np.bool_: isinstance(x, int), isinstance(x, bool), `x is True` and type(x) differ - not to be relied on in verified code)")
         yield st, e.data[pos[0]]
     else:
         r = _keep_u8(e, NdE(shape, [e.data[p] for p in pos]))
-        yield st, (alloc_view(st, ref, r, pos) if _basic_index(idx) else st.alloc(r))
+        if _basic_index(idx):
+            yield st, alloc_view(st, ref, r, pos)
+        else:
+            comps = idx if isinstance(idx, tuple) else (idx,)
+            if len(shape) >= 2 and len(r.data) > 1 and not _basic_index(tuple(comps[1:])):
+                # the copy made by a fancy index on an axis other than the first is not C-ordered in general
+                r.layout_unknown = True
+            yield st, st.alloc(r)
 
 
 def _basic_index(idx):
-    """ints and slices only: numpy returns a VIEW of the array (fancy / mask indexing returns a copy)"""
+    """ints, slices and `...` only: numpy returns a VIEW of the array (fancy / mask indexing returns a copy)"""
     comps = idx if isinstance(idx, tuple) else (idx,)
-    return all((isinstance(c, int) and not isinstance(c, bool)) or isinstance(c, SliceVal) for c in comps)
+    return all((isinstance(c, int) and not isinstance(c, bool)) or isinstance(c, SliceVal) or c is Ellipsis for c in comps)
 
 
 def alloc_view(st, base_ref, view, pos):
@@ -428,6 +576,8 @@ def alloc_view(st, base_ref, view, pos):
         base_ref, pos = vo[0], [vo[1][p] for p in pos]
         base = st.get(base_ref)
     view.viewof = (base_ref, tuple(pos))
+    if base.__dict__.get("layout_unknown"):
+        view.layout_unknown = True  # a view of memory whose order is not known
     vref = st.alloc(view)
     base.views = tuple(getattr(base, "views", ())) + ((vref, tuple(pos)),)
     return vref
@@ -444,6 +594,47 @@ def sync_views(st, ref):
         e = root
     for vref, pos in getattr(e, "views", ()):
         st.get(vref).data[:] = [e.data[p] for p in pos]
+
+
+def cast_elem(I, st, e, x):
+    """the element numpy stores when the value x is assigned into the array e: numpy CONVERTS to the array's dtype
+    (`intarr[0] = 1.7` stores 1, `boolarr[0] = 5` stores True, `floatarr[0] = 1` stores 1.0); -> value or Exc"""
+    kind = dtype_of(e)
+    if kind == "O":
+        return x
+    if kind in ("U", "S"):
+        ok = isinstance(x, str if kind == "U" else bytes) and any(isinstance(y, type(x)) and len(y) >= len(x) for y in e.data)
+        if not ok:  # numpy converts to a string and TRUNCATES it to the array's item size
+            raise Unsupported("assignment into a string array of a value that may not fit the item size")
+        return x
+    if kind == U8:
+        raise Unsupported("assignment into a uint8 array")
+    if x is None:
+        return exc("TypeError", "%s() argument must be a string or a real number, not 'NoneType'" % {"f": "float", "i": "int", "b": "bool"}[kind])
+    if kind == "f" and is_nan(x):
+        return x
+    if not is_number(x):
+        raise Unsupported("assignment of %r into a numeric array" % (x,))
+    if kind == "f":
+        return tofloat(x)
+    if kind == "i":
+        x = as_arith(x)
+        if is_intlike(x):
+            check_int64(I, [x])
+            return x
+        # float -> int64: C conversion, truncation toward zero
+        if isinstance(x, Fraction):
+            r = int(x)  # int(Fraction) truncates toward zero
+            check_int64(I, [r])
+            return r
+        I.trust("numpy-int-cast", "A5: a real stored into an int64 array is truncated toward zero (values inside the int64 range)")
+        return z3.simplify(ops.z_trunc(x))
+    if kind == "b":
+        if is_boollike(x):
+            return x
+        x = as_arith(x)
+        return (x != 0) if is_z3(x) else bool(x != 0)
+    raise Unsupported("assignment into an array of kind %s" % kind)
 
 
 def nd_setitem(I, st, ref, idx, v):
@@ -476,16 +667,28 @@ def nd_setitem(I, st, ref, idx, v):
     sv, dv = asnd(I, st, v)
     if sv == ():
         vals = [dv[0]] * len(pos)
-    elif size(sv) == len(pos):
-        vals = dv
-    elif len(pos) % max(size(sv), 1) == 0 and size(sv):
-        vals = dv * (len(pos) // size(sv))
+    elif shape == ():
+        raise Unsupported("assignment of a sequence to one array element")
     else:
-        yield st, exc("ValueError", "shape mismatch in array assignment")
-        return
-    isfloat = any(is_reallike(x) for x in e.data)
+        # numpy broadcasts the value to the shape of the indexed region (leading axes of length 1 of the value are dropped);
+        # a value that cannot be broadcast to it raises ValueError
+        while len(sv) > len(shape) and sv[0] == 1:
+            sv = sv[1:]
+        try:
+            bshape, pairs = broadcast(shape, [None] * len(pos), sv, dv)
+        except BroadcastError:
+            bshape = None
+        if bshape != tuple(shape):
+            yield st, exc("ValueError", "could not broadcast input array from shape %s into shape %s" % (sv, tuple(shape)))
+            return
+        vals = [y for _, y in pairs]
+    vals = [cast_elem(I, st, e, x) for x in vals]
+    for x in vals:
+        if isinstance(x, Exc):
+            yield st, x
+            return
     for p, x in zip(pos, vals):
-        e.data[p] = tofloat(x) if isfloat else x
+        e.data[p] = x
     sync_views(st, ref)
     yield st, None
 
@@ -540,6 +743,8 @@ def nd_getattr(I, st, ref, name):
 
         return Builtin("ndarray." + name, f)
 
+    if getattr(e, "flatiter", False) and name not in ("copy",):
+        raise Unsupported("attribute %s of ndarray.flat" % name)
     if name == "shape":
         yield st, tuple(e.shape)
     elif name == "ndim":
@@ -593,7 +798,11 @@ def nd_getattr(I, st, ref, name):
             return conv(unflatten(ee.shape, ee.data))
         yield st, simple(_tl)
     elif name == "copy":
-        yield st, simple(lambda I, st: st.alloc(st.get(ref).detached()))
+        def _copy(I, st, order="C"):
+            if order != "C":
+                raise Unsupported("ndarray.copy(order=%r)" % (order,))
+            return st.alloc(st.get(ref).detached(order="C"))  # a.copy() is C-ordered whatever the layout of a
+        yield st, simple(_copy)
     elif name == "flatten" or name == "ravel":
         def _flat(I, st, order="C"):
             # The model keeps the elements in LOGICAL row-major order and has no notion of memory layout: order="C" (the
@@ -604,8 +813,14 @@ def nd_getattr(I, st, ref, name):
             ne = NdE((size(ee.shape),), list(ee.data))
             if getattr(ee, "dtype", None) is not None:
                 ne.dtype = ee.dtype
-            if name == "ravel":  # a view of the (row-major) array; flatten always copies
-                return alloc_view(st, ref, ne, list(range(len(ne.data))))
+            if name == "ravel":
+                # ravel() is a VIEW exactly when the array is C-contiguous; of a transposed / strided / Fortran-ordered
+                # array it is a COPY (writes into it do not reach the array); flatten always copies
+                cc = ee.c_contiguous()
+                if cc is None:
+                    raise Unsupported("ndarray.ravel() of an array whose memory layout is not known (view or copy?)")
+                if cc:
+                    return alloc_view(st, ref, ne, list(range(len(ne.data))))
             return st.alloc(ne)
         yield st, simple(_flat)
     elif name == "astype":
@@ -618,15 +833,21 @@ def nd_getattr(I, st, ref, name):
                     raise Unsupported("astype(float) of non-numeric elements")
                 ne = NdE(ee.shape, [tofloat(x) for x in ee.data])
                 ne.dtype = "f"
-                return st.alloc(ne)
+                return st.alloc(mark_layout(st, ne, (ref,)))
             if (isinstance(t, BuiltinClass) and t.name == "int") or (isinstance(t, DtypeVal) and t.kind == "i"):
                 if any(x is None for x in ee.data):
                     return exc("TypeError", "int() argument must be a string, a bytes-like object or a real number, not 'NoneType'")
                 if all(is_intlike(x) for x in ee.data):
-                    ne = NdE(ee.shape, ee.data)
+                    ne = NdE(ee.shape, [as_arith(x) for x in ee.data])  # booleans become 0 / 1
                     ne.dtype = "i"
-                    return st.alloc(ne)
-                raise Unsupported("astype(int) of non-integer elements")
+                    return st.alloc(mark_layout(st, ne, (ref,)))
+                if all(is_number(x) and not is_boollike(x) for x in ee.data):
+                    # float64 -> int64: truncation toward zero (1.7 -> 1, -1.7 -> -1), not rounding and not floor
+                    ne = NdE(ee.shape, [0] * len(ee.data))
+                    ne.dtype = "i"
+                    ne.data = [cast_elem(I, st, ne, x) for x in ee.data]
+                    return st.alloc(mark_layout(st, ne, (ref,)))
+                raise Unsupported("astype(int) of non-numeric elements")
             if t == "S" and (dtype_of(ee) == "U" or not ee.data):
                 # unicode -> byte strings: ascii encoding, UnicodeEncodeError otherwise
                 out = []
@@ -637,7 +858,7 @@ def nd_getattr(I, st, ref, name):
                         return exc("UnicodeEncodeError", str(err))
                 ne = NdE(ee.shape, out)
                 ne.dtype = "S"
-                return st.alloc(ne)
+                return st.alloc(mark_layout(st, ne, (ref,)))
             raise Unsupported("astype")
         yield st, simple(_as)
     elif name == "__bool__":
@@ -671,12 +892,33 @@ def nd_getattr(I, st, ref, name):
             ne = NdE(tuple(shape), ee.data)
             if "dtype" in ee.__dict__:
                 ne.dtype = ee.dtype
-            return alloc_view(st, ref, ne, list(range(len(ne.data))))
+            # reshape returns a view when the memory layout allows it and a COPY otherwise (e.g. of a transposed array)
+            vp = view_possible(ee, tuple(shape))
+            if vp is None:
+                raise Unsupported("reshape of an array whose memory layout is not known (view or copy?)")
+            return alloc_view(st, ref, ne, list(range(len(ne.data)))) if vp else st.alloc(ne)
         yield st, simple(_reshape_m)
     elif name == "dtype":
         yield st, DtypeVal(dtype_of(e))
     elif name == "flat":
-        yield st, st.alloc(ListE(list(e.data)))  # iterator over the elements in row-major order
+        # a.flat indexes the elements in logical row-major order and WRITES THROUGH (a.flat[k] = x changes a) whatever the
+        # memory layout: a 1-d view marked flatiter (no arithmetic, no other attributes)
+        fe = _keep_u8(e, NdE((len(e.data),), list(e.data)))
+        fe.flatiter = True
+        yield st, alloc_view(st, ref, fe, list(range(len(e.data))))
+    elif name == "fill":
+        def _fill(I, st, v):
+            # a.fill(x): every element becomes x converted to a's dtype, in place (views see it)
+            ee = st.get(ref)
+            if isinstance(v, Ref) or isinstance(v, tuple):
+                raise Unsupported("ndarray.fill of a non-scalar")
+            x = cast_elem(I, st, ee, v)
+            if isinstance(x, Exc):
+                return x
+            ee.data[:] = [x] * len(ee.data)
+            sync_views(st, ref)
+            return None
+        yield st, simple(_fill)
     else:
         raise Unsupported("ndarray attribute " + name)
 
@@ -729,23 +971,58 @@ def make_module(I):
                 e = NdE((len(items),), items)
                 e.dtype = "O"
                 return st.alloc(e)
-        return mk(I, st, to_nested(I, st, v), dt)
+        r = mk(I, st, to_nested(I, st, v), dt)
+        mark_layout(st, st.get(r), (v,))  # np.array(a) copies in order 'K': the memory order of a
+        if isinstance(dtype, BuiltinClass) and dtype.name == "int":
+            # dtype=int CONVERTS the elements: floats are truncated toward zero, booleans become 0 / 1
+            e = st.get(r)
+            if dtype_of(e) not in ("i", "f", "b"):
+                raise Unsupported("np.array(dtype=int) of non-numeric elements")
+            data = list(e.data)
+            e.dtype = "i"
+            e.data = [cast_elem(I, st, e, x) for x in data]
+            if any(isinstance(x, Exc) for x in e.data):
+                raise Unsupported("np.array(dtype=int) of an element that is not a number")
+        return r
 
     reg("array", array)
-    reg("asarray", array)
 
-    def zeros(I, st, shape, dtype=None):
-        if isinstance(shape, int):
-            shape = (shape,)
-        shape = tuple(I.iterate(shape, st))
-        if not all(isinstance(s, int) for s in shape):
-            raise Unsupported("np.zeros with symbolic shape")
-        if any(s < 0 for s in shape):
-            return exc("ValueError", "negative dimensions are not allowed")
-        z = 0 if (isinstance(dtype, BuiltinClass) and dtype.name == "int") else Fraction(0)
-        return st.alloc(NdE(shape, [z] * size(shape)))
+    def asarray(I, st, v, dtype=None):
+        """np.asarray(x): x ITSELF when it already is an array of the requested dtype (no copy: writes through the result
+        change x); a new array otherwise"""
+        if isinstance(v, Ref) and st.get(v).kind == "nd":
+            if dtype is None or (not is_uint8(st, v) and as_dtype_kind(dtype) == dtype_of(st.get(v))):
+                return v
+        return array(I, st, v, dtype)
 
-    reg("zeros", zeros)
+    reg("asarray", asarray)
+
+    def filled(what, zero):
+        def f(I, st, shape, dtype=None):
+            """np.zeros / np.ones (shape[, dtype]): elements of the REQUESTED dtype (float64 by default): np.ones(2, dtype=int)
+            is an integer array (integer division, truncating stores), np.zeros(2, dtype=bool) holds False"""
+            if isinstance(shape, int) and not isinstance(shape, bool):
+                shape = (shape,)
+            shape = tuple(I.iterate(shape, st))
+            if not all(isinstance(s, int) and not isinstance(s, bool) for s in shape):
+                raise Unsupported("np.%s with symbolic shape" % what)
+            if any(s < 0 for s in shape):
+                return exc("ValueError", "negative dimensions are not allowed")
+            if isinstance(dtype, BuiltinClass) and dtype.name in ("int8", "int16", "int32"):
+                # narrower signed integers: the same element kind; their range is an assumption, not modelled
+                I.trust("numpy-narrow-int", "A5: int8 / int16 / int32 arrays hold mathematical integers (no OverflowError / wrap-around at the type's range); their dtype is reported as the integer kind")
+                dtype = "int64"
+            kind = as_dtype_kind(dtype) or "f"
+            if kind not in ("f", "i", "b"):
+                raise Unsupported("np.%s with dtype kind %s" % (what, kind))
+            v = {"f": Fraction(0 if zero else 1), "i": 0 if zero else 1, "b": not zero}[kind]
+            e = NdE(shape, [v] * size(shape))
+            e.dtype = kind
+            return st.alloc(e)
+        return f
+
+    reg("zeros", filled("zeros", True))
+    reg("ones", filled("ones", False))
 
     def zeros_like(I, st, a, dtype=None):
         """np.zeros_like(array): zeros of the same shape and element kind (float / int arrays only)"""
@@ -755,21 +1032,11 @@ def make_module(I):
         kind = dtype_of(e)
         if kind not in ("f", "i"):
             raise Unsupported("np.zeros_like of a %s array" % kind)
-        return st.alloc(NdE(e.shape, [0 if kind == "i" else Fraction(0)] * size(e.shape)))
+        ne = NdE(e.shape, [0 if kind == "i" else Fraction(0)] * size(e.shape))
+        ne.dtype = kind
+        return st.alloc(mark_layout(st, ne, (a,)))
 
     reg("zeros_like", zeros_like)
-
-    def ones(I, st, shape, dtype=None):
-        if isinstance(shape, int):
-            shape = (shape,)
-        shape = tuple(I.iterate(shape, st))
-        if not all(isinstance(s, int) for s in shape):
-            raise Unsupported("np.ones with symbolic shape")
-        if any(s < 0 for s in shape):
-            return exc("ValueError", "negative dimensions are not allowed")
-        return st.alloc(NdE(shape, [Fraction(1)] * size(shape)))
-
-    reg("ones", ones)
 
     def arange(I, st, *a, dtype=None):
         """np.arange(stop) / np.arange(start, stop) with concrete ints (step 1): ints, or floats with dtype=float"""
@@ -811,9 +1078,14 @@ def make_module(I):
                         raise Unsupported("elementwise numpy function forks")
                     cur, r = outs[0]
                     out.append(r)
-                yield cur, cur.alloc(NdE(e.shape, out))
+                yield cur, cur.alloc(mark_layout(cur, NdE(e.shape, out), (v,)))
             else:
-                yield from fn(I, st, v)
+                # numpy functions do not raise on a scalar outside the domain either (np.sqrt(-1.0) is nan with a
+                # RuntimeWarning, math.sqrt(-1.0) raises ValueError): outside the real-number model
+                for st1, r in fn(I, st, v):
+                    if isinstance(r, Exc):
+                        raise Unsupported("numpy function of a scalar that may be outside its domain (nan)")
+                    yield st1, r
 
         return f
 
@@ -884,7 +1156,7 @@ def make_module(I):
     N["floating"] = BuiltinClass("floating")
     N["number"] = BuiltinClass("number")
     N["nan"] = Opaque("nan")
-    N["inf"] = Opaque("inf")
+    N["inf"] = _M().Inf(1)  # np.inf IS float("inf"): comparisons with every (finite, A1) number are decided
     pi = z3.Real("pi")
     N["pi"] = pi
 
@@ -929,6 +1201,8 @@ def make_module(I):
         sb, db = asnd(I, st, b)
         if sa != sb:
             return False
+        if any(is_nan(x) for x in da) or any(is_nan(y) for y in db):
+            return False  # equal_nan=False: a NaN element is not equal to anything, itself included
         return M.conj([M.eq_values(I, st, x, y) for x, y in zip(da, db)])
 
     reg("array_equal", _array_equal)
@@ -973,7 +1247,10 @@ def make_module(I):
         if isinstance(v, Ref) and st.get(v).kind == "nd":
             if "dtype" in st.get(v).__dict__:
                 e.dtype = st.get(v).dtype
-            return alloc_view(st, v, e, list(range(len(d))))
+            vp = view_possible(st.get(v), tuple(shape))  # a view when the layout allows it, a copy otherwise
+            if vp is None:
+                raise Unsupported("reshape of an array whose memory layout is not known (view or copy?)")
+            return alloc_view(st, v, e, list(range(len(d)))) if vp else st.alloc(e)
         return st.alloc(e)
 
     reg("reshape", _reshape)
@@ -1014,7 +1291,22 @@ def make_module(I):
         raise Unsupported("np.isnan of %r" % (v,))
 
     reg("isnan", _isnan)
-    reg("isfinite", lambda I, st, v: True)
+    def _isfinite(I, st, v):
+        """A1: every modelled real is finite; nan and +-inf are not"""
+        M = _M()
+        fin = lambda x: not (is_nan(x) or isinstance(x, M.Inf))
+        if isinstance(v, Ref) and st.get(v).kind == "nd":
+            e = st.get(v)
+            if not all(is_number(x) or is_nan(x) or isinstance(x, M.Inf) for x in e.data):
+                raise Unsupported("np.isfinite of a non-numeric array")
+            r = NdE(e.shape, [fin(x) for x in e.data])
+            r.dtype = "b"
+            return st.alloc(mark_layout(st, r, (v,)))
+        if is_number(v) or is_nan(v) or isinstance(v, M.Inf):
+            return fin(v)
+        raise Unsupported("np.isfinite of %r" % (v,))
+
+    reg("isfinite", _isfinite)
 
     def _interp(I, st, x, xp, fp, left=None, right=None, period=None):
         """np.interp(x, xp, fp) for a SCALAR x (concrete or symbolic real) over a CONCRETE non-decreasing table xp and a
@@ -1076,6 +1368,9 @@ def make_linalg(I):
     L = {}
 
     def norm(I, st, a, k):
+        if len(a) != 1 or k:
+            # ord / axis / keepdims change the result (1-norm, max-norm, per-row norms): only the default is modelled
+            raise Unsupported("np.linalg.norm with ord / axis / keepdims")
         s, d = asnd(I, st, a[0])
         tot = 0
         for x in d:
@@ -1164,11 +1459,10 @@ def nd_set_mask(I, st, ref, mask, v):
         raise Unsupported("boolean mask of another shape")
     if isinstance(v, Ref) or isinstance(v, tuple):
         raise Unsupported("boolean mask assignment of a sequence")
-    isfloat = getattr(e, "dtype", None) != "O" and any(is_reallike(x) for x in e.data)
-    if v is None and getattr(e, "dtype", None) != "O":
-        yield st, exc("TypeError", "float() argument must be a string or a real number, not 'NoneType'")
+    val = cast_elem(I, st, e, v)  # converted to the array's dtype like any assigned value
+    if isinstance(val, Exc):
+        yield st, val
         return
-    val = tofloat(v) if (isfloat and is_number(v)) else v
     conds = list(me.data)
 
     def rec(st1, k):
